@@ -64,17 +64,21 @@ CLAIMS = {
             "clean_name, TargetName::new",
             "Decides on every path of save_target: the only file-system effects are mkdir, temp file in the "
             "destination's directory, writes to it, and persist; persist only after the end of the "
-            "verified read_target stream and never after an Err item; all effects dominated by the "
+            "verified read_target stream and never after an Err item, Ok only through the Ok edge of "
+            "that rename (no 'already there' shortcut); all effects dominated by the "
             "containment test against the canonicalised outdir; file name only from "
             "TargetName::resolved; clean_name's refusals dominate Ok and TargetName is built only via "
-            "new(). Normalisation arithmetic and symlinks inside outdir are not decided.",
+            "new(); C06's read_target obligations are re-evaluated as a dependency. Normalisation "
+            "arithmetic and symlinks inside outdir are not decided.",
             "DESIGN.md §4 C08"),
     "C15": ("who-may-write query (file-system effect table over resolved callees of datastore.rs) + MIR "
             "dominance/value-origin analysis of Datastore::create and of every Datastore::create call site",
             "Decides for every call path that stored trust state is only removed (Datastore::remove) or "
             "replaced by temp-file-in-the-same-directory -> successful write -> persist (atomic rename) "
             "and that only documents that passed verify_role are stored: whatever the crash point or "
-            "failing write, the directory holds the old or the new complete, previously verified file. "
+            "failing write, the directory holds the old or the new complete, previously verified file; "
+            "that a failing read of stored state fails the cycle (never read as 'nothing stored'); that only "
+            "timestamp.json/snapshot.json are ever unlinked, only in load_root. "
             "fsync/power-loss durability is outside the claim.",
             "DESIGN.md §4 C15"),
     "C20": ("MIR must-pass-through + who-may-write (file-system effect table) + value-origin analysis of "
@@ -92,7 +96,9 @@ CLAIMS = {
             "the bound originates from the file's own pinned length (which must apply when present) or "
             "the configured limit of that role — never from another file's pin; that every loop containing "
             "a fetch iterates an in-memory collection or is guarded, before the fetch, by version < "
-            "shipped version + max_root_updates. Unbounded recursion over delegation cycles is a recorded "
+            "shipped version + max_root_updates; that the cap itself passes a chunk on only while the bytes "
+            "counted so far including that chunk are <= the bound (counted before tested, every Ok chunk "
+            "counted). Unbounded recursion over delegation cycles is a recorded "
             "finding (D3). Wall-clock termination is not decided.",
             "DESIGN.md §4 C09"),
     "C06": ("MIR value-origin / must-pass-through + file-name template analysis of read_target, "
@@ -137,7 +143,10 @@ CLAIMS = {
             "verified (canonical re-serialisation of the parsed object) contains exactly what was parsed: "
             "no asymmetric serde attribute, omission only for Option::is_none, a flattened catch-all at "
             "every level, role tag from the Rust type with the input's `_type` stripped, hand-written "
-            "impls emit the original text. Missing catch-alls in Delegations/DelegatedRole (D11) and "
+            "impls emit the original text; as dependencies, C11's formatter obligations (member map "
+            "keyed by the un-escaped key, NFC and nothing coarser, escape table) and C01's counting-loop "
+            "obligations (extra signature entries never block a valid one) are re-evaluated. Missing "
+            "catch-alls in Delegations/DelegatedRole (D11) and "
             "Target.custom omitted when empty (D15) are recorded findings.",
             "DESIGN.md §4 C12"),
     "C13": ("serde attribute query over all key-table fields + MIR dominance/value-origin analysis of "
